@@ -86,6 +86,7 @@ let build_arg (items : Sx.t list) : Cmd.arg =
     | "r_unless_all" -> a := { !a with a_r_unless_all = !a.a_r_unless_all @ Stdlib.List.map bs args }
     | "groups" -> a := { !a with a_groups = !a.a_groups @ Stdlib.List.map bs args }
     | "help" -> a := { !a with a_help = Some (bs (Stdlib.List.hd args)) }
+    | x when String.length x > 2 && String.sub x 0 2 = "x-" -> ()
     | x -> failwith ("arg item " ^ x)) (Stdlib.List.tl items);
   !a
 
@@ -149,6 +150,7 @@ let rec build_cmd (items : Sx.t list) : Cmd.cmd =
     | "arg" -> c := { !c with c_args = !c.c_args @ [build_arg args] }
     | "group" -> c := { !c with c_groups = !c.c_groups @ [build_group args] }
     | "sub" -> c := { !c with c_subs = !c.c_subs @ [build_cmd (Sx.args (Stdlib.List.hd args))] }
+    | x when String.length x > 2 && String.sub x 0 2 = "x-" -> ()
     | x -> failwith ("cmd item " ^ x)) (Stdlib.List.tl items);
   !c
 
